@@ -475,6 +475,161 @@ def check_catchall(ev, fails, d):
             ev.case(key=[name, nextra, pname], nontrivial=nextra >= 1, labels=("catchall",))
 
 
+
+# ---- get_def() under template options ------------------------------------------
+def _handler(context, error):
+    context.write("HANDLED:" + type(error).__name__)
+    return True
+
+
+DEFOPT_PIECES = {
+    "text": "text é ", "loopvar": "[${str(loop)[:6]}]", "forloop": "\n% for x in cl:\n${x}:${str(loop)[:1]}\n% endfor\n",
+    "undef": "<${nosuch}>", "esc": "${cs2}", "inc": '<%include file="c08inc.html"/>', "raise": "a${boom()}b",
+    "arg": "(${a})", "num": "${cn}",
+}
+
+
+def defopt_case(g):
+    opts = {}
+    if g.int(1, 2) == 1:
+        opts["enable_loop"] = False
+    if g.int(1, 4) == 1:
+        opts["strict_undefined"] = True
+    if g.int(1, 3) == 1:
+        opts["default_filters"] = g.pick([["h"], ["str", "trim"], ["h", "trim"]])
+    if g.int(1, 3) == 1:
+        opts["output_encoding"] = g.pick(["latin-1", "ascii", "utf-16"])
+        opts["encoding_errors"] = g.pick(["strict", "replace", "xmlcharrefreplace"])
+    if g.int(1, 4) == 1:
+        opts["error_handler"] = True
+    pieces = [g.pick(sorted(DEFOPT_PIECES)) for _ in range(g.int(1, 4))]
+    if not opts.get("enable_loop", True) and g.int(1, 2) == 1:
+        pieces.append("loopvar")
+    return {"part": "defopt", "opts": opts, "pieces": pieces, "loop": g.int(1, 3) > 1, "sig": g.pick(["", "a", "a='d'"])}
+
+
+def check_defopt(case, ev, d):
+    """get_def(name).render*() under Template options == the def called from a one-line body under the same options"""
+    from mako.lookup import TemplateLookup
+    from mako.template import Template
+
+    k = next(_k)
+    opts = dict(case["opts"])
+    if opts.pop("error_handler", None):
+        opts["error_handler"] = _handler
+    body = "".join(DEFOPT_PIECES[p] for p in case["pieces"])
+    sig = case["sig"]
+    dsrc = '<%%def name="d(%s)">%s</%%def>' % (sig, body)
+    args = {"a": "A<"} if sig == "a" else {}
+    ref_src = dsrc + "${d(%s)}" % ("a=%r" % args["a"] if args else "")
+    root = os.path.join(d, "defopt")
+    os.makedirs(root, exist_ok=True)
+    if not os.path.exists(os.path.join(root, "c08inc.html")):
+        with open(os.path.join(root, "c08inc.html"), "w") as fh:
+            fh.write("{inc ${cn}}")
+    fn = os.path.join(root, "o%d.html" % k)
+    with open(fn, "wb") as fh:
+        fh.write(dsrc.encode("utf-8"))
+    lk = TemplateLookup(directories=[root])
+
+    def ctx():
+        c = tenv.make_ctx()
+        c["cs2"] = "<é&€>"
+        if case["loop"]:
+            c["loop"] = "L"
+        return c
+
+    ref = Template(ref_src, uri="/c08ref_%d.html" % k, lookup=lk, **opts)
+    want = {"render": _run(lambda: ref.render(**ctx())), "render_unicode": _run(lambda: ref.render_unicode(**ctx()))}
+    md = os.path.join(d, "defoptmod")
+    builders = [
+        ("text", lambda: Template(dsrc, uri="/c08do_%d.html" % k, lookup=lk, **opts)),
+        # (with its URI inside the lookup: a relative <%include> is resolved against the URI)
+        ("file", lambda: Template(filename=fn, uri="/o%d.html" % k, lookup=lk, **opts)),
+        ("module_directory", lambda: Template(filename=fn, uri="/o%d.html" % k, module_directory=md, lookup=lk, **opts)),
+        ("module_directory-reload", lambda: Template(filename=fn, uri="/o%d.html" % k, module_directory=md, lookup=lk, **opts)),
+        ("lookup", lambda: TemplateLookup(directories=[root], module_directory=md + "L", **opts).get_template("o%d.html" % k)),
+    ]
+    tag = "\n--- options %r, context loop=%r ---\n%s" % (case["opts"], case["loop"], dsrc)
+    for pname, build in builders:
+        t = build()
+        for via, gd in (("get_def", lambda: t.get_def("d")), ("get_def-of-get_def", lambda: t.get_def("d").get_def("d"))):
+            for how in ("render", "render_unicode"):
+                def call():
+                    c = ctx()
+                    c.update(args)
+                    return getattr(gd(), how)(**c)
+                got = _run(call)
+                if got != want[how]:
+                    raise Failure(case, "%s: %s('d').%s() gives %r; the def called from a one-line template with the same "
+                                  "options gives %r" % (pname, via, how, got, want[how]) + tag, "P8-options:" + how)
+    nt = bool(case["opts"]) and want["render_unicode"][0] == "ok"
+    ev.case(key=[case["opts"], case["pieces"], case["loop"], sig], nontrivial=nt,
+            labels=("defopt", "defopt-outcome:" + want["render_unicode"][0]) + tuple("defopt:" + o for o in sorted(case["opts"])))
+
+
+# ---- mako-render: where its lookups search ------------------------------------------
+def check_cli_dirs(case, ev, d):
+    """mako-render FILE [--template-dir D]...: <%include>/<%inherit>/<%namespace> resolve as in the API render of the
+    same file with a TemplateLookup over D... (over the file's own directory when no --template-dir is given)"""
+    from mako import cmd
+    from mako.lookup import TemplateLookup
+    from mako.template import Template
+
+    k = next(_k)
+    base = os.path.join(d, "clidirs%d" % k)
+    names = ["site", "shared", "other"]
+    for nm in names:
+        os.makedirs(os.path.join(base, nm))
+    present = case["present"]  # which directories hold part.html / base.html / fns.html
+    for nm in names:
+        if nm in present:
+            for f, text in (("part.html", "%s-part(${v})" % nm), ("base.html", "%s-base{${self.body()}}" % nm),
+                            ("fns.html", '<%%def name="f(x)">%s-f ${x}</%%def>' % nm)):
+                with open(os.path.join(base, nm, f), "w") as fh:
+                    fh.write(text)
+    kind = case["kind"]
+    page = {"include": '<%include file="part.html"/>|page ${v}', "inherit": '<%inherit file="base.html"/>page ${v}',
+            "namespace": '<%namespace name="n" file="fns.html"/>${n.f(v)}', "abs": '<%include file="/part.html"/>|page ${v}'}[kind]
+    fn = os.path.join(base, "site", "page.mako")
+    with open(fn, "w") as fh:
+        fh.write(page)
+    tdirs = [os.path.join(base, nm) for nm in case["tdirs"]]
+    dirs = tdirs or [os.path.join(base, "site")]
+    want = _run(lambda: Template(filename=fn, lookup=TemplateLookup(directories=dirs)).render_unicode(v="5"))
+    argv = [fn, "--var", "v=5"] + sum((["--template-dir", t] for t in tdirs), [])
+    raw = io.BytesIO()
+    out = io.TextIOWrapper(raw, encoding="utf-8", newline="")
+    try:
+        with contextlib.redirect_stdout(out), contextlib.redirect_stderr(io.StringIO()):
+            cmd.cmdline(argv)
+        out.flush()
+        got = ("ok", raw.getvalue().decode("utf-8"))
+    except SystemExit:
+        got = ("exc", "exit")
+    except Exception as e:
+        got = ("exc", type(e).__name__)
+    if want[0] == "ok" and got != want:
+        raise Failure(case, "mako-render page.mako %s printed %r; Template(filename=page.mako, lookup=TemplateLookup(%r)) renders %r "
+                      "(files present in %r)\n%s" % (" ".join("--template-dir " + t for t in case["tdirs"]), got, case["tdirs"] or ["site"],
+                                                      want, present, page), "P7-template-dir")
+    if want[0] != "ok" and got[0] == "ok":
+        raise Failure(case, "mako-render page.mako %s printed %r; the API render raises %s (files present in %r)\n%s"
+                      % (" ".join("--template-dir " + t for t in case["tdirs"]), got, want[1], present, page), "P7-template-dir")
+    ev.case(key=[kind, case["tdirs"], present], nontrivial=bool(tdirs) and "site" in present and want[0] == "ok",
+            labels=("cli-dirs", "cli-dirs:" + want[0]))
+
+
+def check_cli_dirs_all(ev, fails, d):
+    for kind in ("include", "inherit", "namespace", "abs"):
+        for tdirs in ([], ["shared"], ["other", "shared"], ["shared", "site"], ["site", "shared"], ["other"]):
+            for present in (["site", "shared", "other"], ["site", "shared"], ["shared"], ["site"], ["other"]):
+                case = {"part": "cli-dirs", "kind": kind, "tdirs": tdirs, "present": present}
+                try:
+                    check_cli_dirs(case, ev, d)
+                except Failure as f:
+                    fails.setdefault(f.key, f)
+
 # ---- colliding URIs ---------------------------------------------------------
 def check_collision(ev, fails):
     from mako.template import Template
@@ -527,7 +682,11 @@ def shard(task):
             check_cli({"part": "cli", "src": src, "vars": vars_}, ev, d)
 
         f2, _ = core.hyp_search(st.binary(min_size=60, max_size=60), checkc, ev, seed + 1, ncli, shrink=True, shrink_budget=10)
-        for f in f1 + f2:
+        def checkd(data):
+            check_defopt(defopt_case(tprog.G(data, set())), ev, d)
+
+        f3, _ = core.hyp_search(st.binary(min_size=40, max_size=40), checkd, ev, seed + 2, max(20, n // 2), shrink=True, shrink_budget=10)
+        for f in f1 + f2 + f3:
             fails.setdefault(f.key, f)
         run_children(batch, d, ev, fails)
     return ev, list(fails.values())
@@ -540,6 +699,7 @@ def run(ctx):
     with core.TempDir() as d:
         check_inheriting_defs(ctx.ev, fails, d)
         check_catchall(ctx.ev, fails, d)
+        check_cli_dirs_all(ctx.ev, fails, d)
     for f in fails.values():
         ctx.fail(f)
     n = ctx.pick(40, 1500)
@@ -569,6 +729,10 @@ def replay(case):
                 check_inheriting_defs(ev, fails, d)
             elif part == "catchall":
                 check_catchall(ev, fails, d)
+            elif part == "defopt":
+                check_defopt(case, ev, d)
+            elif part == "cli-dirs":
+                check_cli_dirs(case, ev, d)
             elif part == "nsset":
                 from mako.lookup import TemplateLookup
 
